@@ -10,49 +10,49 @@ var table = map[string]propInfo{
 			"Non-trivial: S uses >= 3 distinct field kinds and >= 1 composite (list/map/message/oneof/embedded). Distinct by 64-bit hash of (S, K, layout).",
 	},
 	"C02": {
-		quick:    budget{checks: 96, shards: 16, inner: 150},
+		quick:    budget{checks: 144, shards: 16, inner: 150},
 		thorough: budget{checks: 2400, shards: 16, inner: 600},
 		rule: "outer: (S, K) drawn by rapid and compiled;" + innerRule + " C02: the run-time schema is compared with the model M(S,K) (names, types, no extra or missing attribute), then single fields are probed with a distinctive value (write probe through CopyTo, read probe through CopyFrom). " +
 			"Non-trivial: the probed field is nested, an element, a oneof member, embedded, renamed or cast. Distinct by hash of (root, attribute path, value).",
 	},
 	"C03": {
-		quick:    budget{checks: 96, shards: 16, inner: 300},
+		quick:    budget{checks: 144, shards: 16, inner: 300},
 		thorough: budget{checks: 1920, shards: 16, inner: 2000},
 		rule: "outer: (S, K) drawn by rapid and compiled;" + innerRule + " C03: struct values V(T) are copied into an empty schema-typed object; the result is walked against the schema type and handed to the framework (ToTerraformValue, ValueFromTerraform, State.Set). " +
 			"Non-trivial: the value has a nil embedded pointer, an empty non-nil collection, a nil element, a zero-valued oneof payload or depth >= 2. Distinct by hash of the value's normal form.",
 	},
 	"C04": {
-		quick:    budget{checks: 96, shards: 16, inner: 300},
+		quick:    budget{checks: 144, shards: 16, inner: 300},
 		thorough: budget{checks: 1920, shards: 16, inner: 2000},
 		rule: "outer: (S, K) drawn by rapid and compiled;" + innerRule + " C04: NF(CopyFrom(CopyTo(x, empty))) == NF(x) with the documented normal form. " +
 			"Non-trivial: >= 1 non-zero leaf below a list/map/oneof/nested message. Distinct by hash of the value's normal form.",
 	},
 	"C05": {
-		quick:    budget{checks: 96, shards: 16, inner: 300},
+		quick:    budget{checks: 144, shards: 16, inner: 300},
 		thorough: budget{checks: 1920, shards: 16, inner: 2000},
 		rule: "outer: (S, K) drawn by rapid and compiled;" + innerRule + " C05: a conforming object (any node null / unknown / known, decoded by the framework from a generated tftypes.Value) and its payload twin (same object, every null/unknown node additionally carries a payload) are copied into a zero struct and into a populated struct; the four results must agree, null/unknown attributes must leave zero fields, excluded fields must stay untouched. " +
 			"Non-trivial: the object has a null/unknown node below the root. Distinct by hash of (object, prior target).",
 	},
 	"C06": {
-		quick:    budget{checks: 96, shards: 16, inner: 400},
+		quick:    budget{checks: 144, shards: 16, inner: 400},
 		thorough: budget{checks: 1920, shards: 16, inner: 3000},
 		rule: "outer: (S, K) drawn by rapid and compiled;" + innerRule + " C06: a conforming object is corrupted at any depth (attributes deleted, values replaced by another framework type / a foreign attr.Value / a nil interface, nil Attrs / Elems, wrong-typed list and map elements) and read by CopyFrom; the multiset of error diagnostics is compared with the one computed from the corruption script and the struct with the one read from the object in which the corrupted nodes are null. For CopyTo, subsets of attribute types are removed at every object level (top, nested, list/map element types) and the diagnostics and the remaining attributes are compared with the untouched run. " +
 			"Non-trivial: a corruption below the top level or >= 2 corruptions. Distinct by hash of (corrupted object, removed types, source).",
 	},
 	"C07": {
-		quick:    budget{checks: 96, shards: 16, inner: 300},
+		quick:    budget{checks: 144, shards: 16, inner: 300},
 		thorough: budget{checks: 1920, shards: 16, inner: 2000},
 		rule: "outer: oneof-heavy (S, K) drawn by rapid and compiled;" + innerRule + " C07: a history of 1-4 CopyFrom calls of objects with at most one known non-null member per group into one target with arbitrary prior branches, then CopyTo of a generated value into an empty object; holders and null flags of every group at every depth are compared with the statement. " +
 			"Non-trivial: a group with >= 2 members or a group below the root was exercised. Distinct by hash of the history.",
 	},
 	"C08": {
-		quick:    budget{checks: 96, shards: 16, inner: 300},
+		quick:    budget{checks: 144, shards: 16, inner: 300},
 		thorough: budget{checks: 1920, shards: 16, inner: 2000},
 		rule: "outer: (S, K) drawn by rapid and compiled;" + innerRule + " C08: plans from P(S) (null / unknown / known incl. known zero values at every node, <= 1 non-null member per oneof, numbers within the Go field's range) are copied into a fresh struct and back into the plan; the result is compared path-wise with the plan and decoded again. " +
 			"Non-trivial: the plan mixes >= 1 null, >= 1 unknown and >= 1 known zero node. Distinct by hash of the plan.",
 	},
 	"C09": {
-		quick:    budget{checks: 96, shards: 16, inner: 200},
+		quick:    budget{checks: 144, shards: 16, inner: 200},
 		thorough: budget{checks: 1920, shards: 16, inner: 1500},
 		rule: "outer: (S, K) drawn by rapid and compiled;" + innerRule + " C09: histories of 1-6 in-place CopyTo calls (new values are mutations of the previous one: lists grow, shrink, become empty or nil, maps lose or gain keys, pointers flip) compared after every step with a CopyTo of the same source into an empty object; every step is repeated to check idempotence. " +
 			"Non-trivial: some collection changed length or key set between steps. Distinct by hash of the history.",
@@ -64,13 +64,13 @@ var table = map[string]propInfo{
 			"Non-trivial: >= 2 different flags set below the root, or a multi-line comment. Distinct by hash of (S, K).",
 	},
 	"C11": {
-		quick:    budget{checks: 96, shards: 16, inner: 100},
+		quick:    budget{checks: 144, shards: 16, inner: 100},
 		thorough: budget{checks: 2400, shards: 16, inner: 500},
 		rule: "each case: S in which messages occur at several paths, a base configuration K0 and K1 = K0 + one entry of one of the seven field-addressed options, keyed by full path or by Message.Field; both are generated, compiled into one binary (sharing the struct package) and compared: each run-time schema against its model (so the entry changed exactly the addressed occurrences), CopyTo on the same values and CopyFrom on the same objects (translated by proto field chain) must agree on every remaining attribute, an excluded field is never written. " +
 			"Non-trivial: the addressed Message.Field occurs at >= 2 paths below the selected types. Distinct by hash of (S, K0, entry).",
 	},
 	"C13": {
-		quick:    budget{checks: 96, shards: 16, inner: 200},
+		quick:    budget{checks: 144, shards: 16, inner: 200},
 		thorough: budget{checks: 1920, shards: 16, inner: 1000},
 		rule: "each case: S rich in kinds that need package qualification (cast types, enums, oneof wrappers, embedded, list/map of message, custom types) generated twice: into the struct package and into a package of its own (default_package_name = import path, or a short name with import_path_overrides); both are compiled into one binary sharing the struct package; schemas, CopyTo results, CopyFrom results and diagnostics (also on corrupted objects) must be equal. " +
 			"Non-trivial: S has >= 3 qualification-sensitive kinds. Distinct by hash of the case.",
@@ -102,7 +102,7 @@ var table = map[string]propInfo{
 		assumptions: []string{"for 'sensitive fields' and 'custom duration type' the value is passed under both parameter spellings (code: sensitive / custom_duration, README: sensitive_fields / duration_custom_type); the property names options, not keys"},
 	},
 	"C17": {
-		quick:    budget{checks: 96, shards: 16, inner: 200},
+		quick:    budget{checks: 144, shards: 16, inner: 200},
 		thorough: budget{checks: 1920, shards: 16, inner: 1000},
 		rule: "each case: S with custom-type fields (gogoproto.customtype and custom_types entries; singular, nullable, repeated; at root, nested, list-element and map-value positions; with and without suffixes) compiled against logging generic hooks;" + innerRule + " C17: the GenSchema / CopyFrom / CopyTo hook calls are matched against the custom fields reached (arguments: description and flags, the attribute value and a pointer to the field, the field value, attribute type and current value) and the stored results are the hooks' sentinels; finally the proto type of every custom field is changed and the generated functions must stay byte-identical. " +
 			"Non-trivial: a custom field below the root or a repeated one. Distinct by hash of (object, value).",
@@ -114,13 +114,13 @@ var table = map[string]propInfo{
 			"Non-trivial: the bad field is at depth >= 2 or behind a list/map/oneof edge. Distinct by hash of the case.",
 	},
 	"C19": {
-		quick:    budget{checks: 64, shards: 16, inner: 500},
+		quick:    budget{checks: 96, shards: 16, inner: 500},
 		thorough: budget{checks: 1440, shards: 16, inner: 5000},
 		rule: "outer: scalar-dense (S, K) drawn by rapid and compiled;" + innerRule + " C19: values drawn from the boundary set of every Go field type (plus random values) must survive CopyTo;CopyFrom exactly. " +
 			"Non-trivial: a non-zero leaf in a non-singular shape (element, map value, oneof member, nested). Distinct by hash of the value's normal form.",
 	},
 	"C20": {
-		quick:    budget{checks: 96, shards: 16, inner: 300},
+		quick:    budget{checks: 144, shards: 16, inner: 300},
 		thorough: budget{checks: 1920, shards: 16, inner: 2000},
 		rule: "outer: (S, K) drawn by rapid and compiled;" + innerRule + " C20: values with every leaf zero with probability 1/2; after CopyTo into an empty object the null flag of every attribute outside list/map elements is compared with the field. " +
 			"Non-trivial: the value has both zero and non-zero leaves at depth >= 1. Distinct by hash of the value's normal form.",
